@@ -280,15 +280,19 @@ def requests(case, obs):
              'threads': [wire(t) for t in obs['threads']], 'post': wire(obs['post'])}]
 
 
-def evaluate(ctx, case, policy):
-    """-> (scheduler, obs, verdict)  verdict: None or a short signature"""
+def run_impl(case, policy):
+    """one scheduled run of the real code -> (scheduler, obs, early signature or None)"""
     s, obs = impl_conc(case, policy)
     sc = obs['sched']
     if sc['deadlock'] or sc['aborted'] or sc['alive'] or not obs['complete']:
-        return s, obs, None, 'C20:conc:no-termination'
+        return s, obs, 'C20:conc:no-termination'
     if sc['errors']:
-        return s, obs, None, 'C20:conc:exception-escaped:' + '+'.join(sorted(set(sc['errors'].values())))
-    ans = ctx.driver.batch(requests(case, obs))
+        return s, obs, 'C20:conc:exception-escaped:' + '+'.join(sorted(set(sc['errors'].values())))
+    return s, obs, None
+
+
+def verdict(case, obs, ans):
+    """(model table, signature) from the two driver answers of `requests(case, obs)`"""
     for a in ans:
         if 'driver_error' in a:
             raise RuntimeError(f'driver error: {a}')
@@ -308,6 +312,15 @@ def evaluate(ctx, case, policy):
                 sig = 'C20:conc:request-failed'
         else:
             sig = 'C20:conc:setting-after-interleaving'
+    return model_table, sig
+
+
+def evaluate(ctx, case, policy):
+    """-> (scheduler, obs, model table, signature or None)"""
+    s, obs, early = run_impl(case, policy)
+    if early:
+        return s, obs, None, early
+    model_table, sig = verdict(case, obs, ctx.driver.batch(requests(case, obs)))
     return s, obs, model_table, sig
 
 
@@ -326,42 +339,64 @@ def run_part(ctx, res):
             if c['kind'] == 'conc':
                 corpus.append(c)
     reported = set()
+    pending = []          # (case, obs, choices, switches, early signature): judged in one batch per scenario
 
     def one(case, policy):
-        s, obs, model_table, sig = evaluate(ctx, case, policy)
-        res.evaluations += 1
-        res.traces += 1
-        res.count('conc.threads=%d' % len(case['threads']))
-        switches = sum(1 for n, c, d in s.choices if c != d)
-        res.count('conc.preemptions=%s' % min(switches, 3))
+        s, obs, early = run_impl(case, policy)
         choices = [c for _, c, _ in s.choices]
-        if switches:
-            res.nontriv({'case': case, 'choices': choices})
-        if sig is None and ctx.model_ok and model_table is not None and model_table != obs['table']:
-            res.disagreements.append({'case': {'kind': 'conc', 'case': case, 'choices': choices},
-                                      'model': model_table, 'impl': obs['table']})
-        if sig is not None and sig not in reported:
-            reported.add(sig)
-            res.violations.append({'sig': sig, 'what': sig + ': ' + describe(case, obs, choices),
-                                   'case': {'kind': 'conc', 'case': case, 'choices': choices}})
-        if not any(x.get('kind') == 'conc' for x in res.samples) and switches:
-            res.samples.append({'kind': 'conc', 'case': case, 'threads': obs['threads'], 'post': obs['post'],
-                                'choices': choices})
+        switches = sum(1 for n, c, d in s.choices if c != d)
+        pending.append((case, obs, choices, switches, early))
         return s
+
+    def flush():
+        reqs = []
+        for case, obs, choices, switches, early in pending:
+            if not early:
+                reqs += requests(case, obs)
+        answers = ctx.driver.batch(reqs) if reqs else []
+        k = 0
+        for case, obs, choices, switches, early in pending:
+            if early:
+                model_table, sig = None, early
+            else:
+                model_table, sig = verdict(case, obs, answers[k:k + 2])
+                k += 2
+            res.evaluations += 1
+            res.traces += 1
+            res.count('conc.threads=%d' % len(case['threads']))
+            res.count('conc.preemptions=%s' % min(switches, 3))
+            if switches:
+                res.nontriv({'case': case, 'choices': choices})
+            if sig is None and ctx.model_ok and model_table is not None and model_table != obs['table']:
+                res.disagreements.append({'case': {'kind': 'conc', 'case': case, 'choices': choices},
+                                          'model': model_table, 'impl': obs['table']})
+            if sig is not None and sig not in reported:
+                reported.add(sig)
+                res.violations.append({'sig': sig, 'what': sig + ': ' + describe(case, obs, choices),
+                                       'case': {'kind': 'conc', 'case': case, 'choices': choices}})
+            if not any(x.get('kind') == 'conc' for x in res.samples) and switches:
+                res.samples.append({'kind': 'conc', 'case': case, 'threads': obs['threads'], 'post': obs['post'],
+                                    'choices': choices})
+        del pending[:]
 
     # corpus entries carry their schedule: replayed exactly
     for c in corpus:
         one(c['case'], _sched.ReplayThenDefault(c['choices']))
+    flush()
     big = ctx.tier == 'thorough' or ctx.escalated
     for case in CATALOGUE:
         for _ in _sched.explore(lambda pol, case=case: (one(case, pol), None),
                                 max_preemptions=2, max_runs=ctx.budget(60, 600), rng=ctx.rng):
             pass
+        flush()
     for _ in range(ctx.budget(40, 800)):
         case = gen_conc(ctx.rng)
         for _ in _sched.explore(lambda pol, case=case: (one(case, pol), None),
                                 max_preemptions=2 if big else 1, max_runs=ctx.budget(12, 40), rng=ctx.rng):
             pass
+        if len(pending) > 400:
+            flush()
+    flush()
 
 
 def replay(ctx, rp):
